@@ -355,8 +355,8 @@ impl Output {
             return;
         }
         self.print(format_args!("0x{:04x}", value));
-        self.print(format_args!("  {:-6}", value));
         self.print(format_args!("  {:-6}", value as i16));
+        self.print(format_args!("  {:-6}", value));
         self.print("    ");
         self.print_char_display(value);
     }
